@@ -44,6 +44,12 @@ template<class T> static void run(Rng& g, int n) {
 		if (kind != 2) { count("angleAxis" + ty); auto r = glm::angleAxis(glm::angle(q), glm::axis(q)); if (!(mdiff(glm::mat3_cast(r), R) <= 4096 * eps)) fail("angleAxis" + ty, "roundtrip", qs(q), "same rotation", qs(r)); }
 		{ count("eulerAngles" + ty); auto e = glm::eulerAngles(q); auto r = glm::qua<T>(e); LD sy = 2 * ((LD)q.w * q.y - (LD)q.x * q.z); LD cy = sqrtl(std::max((LD)0, 1 - sy * sy)); LD t = 4096 * eps / std::max(cy, 64 * sqrtl(eps)) + (kind == 3 ? 64 * sqrtl(eps) : 0); if (!(mdiff(glm::mat3_cast(r), R) <= t)) fail("eulerAngles" + ty, kind == 3 ? "gimbal-pole" : "roundtrip", qs(q), "quat(eulerAngles(q)) same rotation", qs(r) + " euler=(" + str((double)e.x) + "," + str((double)e.y) + "," + str((double)e.z) + ")");
 		  M3 E = mul(mul(rot(2, e.z), rot(1, e.y)), rot(0, e.x)); if (!(mdiff(glm::mat3_cast(q), E) <= t)) fail("eulerAngles" + ty, kind == 3 ? "gimbal-pole-matrix" : "matrix", qs(q), "Rz(roll)Ry(yaw)Rx(pitch)", "differs"); }
+		// exactly opposite vectors (the constructor's fallback axis): along each signed coordinate axis and in general position; the image of u under
+		// the returned quaternion (long-double sandwich product, no glm operator) must point along v
+		{ glm::vec<3, T> u; int k = it % 8; if (k < 6) { u = glm::vec<3, T>((T)0); u[k / 2] = (T)((k & 1) ? -1 : 1) * (T)g.real(0.5, 2); } else u = glm::vec<3, T>((T)g.real(-1, 1), (T)g.real(-1, 1), (T)g.real(-1, 1)) + glm::vec<3, T>((T)0.1);
+		  glm::vec<3, T> v = -u * (T)(1 << (it % 3)); count("two_vectors" + ty); auto r = glm::qua<T>(glm::normalize(u), glm::normalize(v)); LD qw = r.w, qx = r.x, qy = r.y, qz = r.z, n2 = qw * qw + qx * qx + qy * qy + qz * qz;
+		  LD ux = u.x, uy = u.y, uz = u.z, tx = 2 * (qy * uz - qz * uy), ty2 = 2 * (qz * ux - qx * uz), tz = 2 * (qx * uy - qy * ux), ix = ux + qw * tx + (qy * tz - qz * ty2), iy = uy + qw * ty2 + (qz * tx - qx * tz), iz = uz + qw * tz + (qx * ty2 - qy * tx);
+		  LD lu = sqrtl(ux * ux + uy * uy + uz * uz); if (!(fabsl(n2 - 1) <= 64 * tol && fabsl(ix + ux) <= 64 * tol * lu && fabsl(iy + uy) <= 64 * tol * lu && fabsl(iz + uz) <= 64 * tol * lu)) fail("two_vectors" + ty, "exactly opposite vectors", "u=(" + str((double)u.x) + "," + str((double)u.y) + "," + str((double)u.z) + ") v=-s*u", "a half turn: q*u = -u", qs(r)); }
 		{ glm::vec<3, T> u = glm::normalize(glm::vec<3, T>((T)g.real(-1, 1), (T)g.real(-1, 1), (T)g.real(-1, 1))), w2 = glm::normalize(glm::vec<3, T>((T)g.real(-1, 1), (T)g.real(-1, 1), (T)g.real(-1, 1))); if (!(glm::dot(u, w2) < (T)-0.99)) { count("two_vectors" + ty); auto r = glm::qua<T>(u, w2); auto img = r * u;
 		  if (!(fabsl((LD)img.x - w2.x) <= 64 * tol && fabsl((LD)img.y - w2.y) <= 64 * tol && fabsl((LD)img.z - w2.z) <= 64 * tol)) fail("two_vectors" + ty, "value", "u->v", "v", "differs"); } }
 		// euler matrices
